@@ -214,6 +214,9 @@ func (w *World) exchangeBatch(batch *Batch, add []ID, rem []ID,
 		panic("at least one component required to add or remove")
 	}
 	lock := w.lock()
+	// Deferred: a rejected batch (e.g. a component that matched entities already have)
+	// must not leave the world locked.
+	defer w.unlock(lock)
 
 	relRemoved := false
 	tables := w.storage.getBatchTables(batch)
@@ -315,7 +318,6 @@ func (w *World) exchangeBatch(batch *Batch, add []ID, rem []ID,
 		}
 	}
 	w.storage.slices.batches = batchTables[:0]
-	w.unlock(lock)
 }
 
 // exchangeTable performs batch-exchange on a single table.
@@ -426,6 +428,9 @@ func (w *World) setRelationsBatch(batch *Batch, relations []relationID, fn func(
 		panic("no relations specified")
 	}
 	lock := w.lock()
+	// Deferred: a rejected batch (e.g. a removed entity as target)
+	// must not leave the world locked.
+	defer w.unlock(lock)
 	hasObserver := w.storage.observers.HasObservers(OnAddRelations) || w.storage.observers.HasObservers(OnRemoveRelations)
 
 	tables := w.storage.getBatchTables(batch)
@@ -450,8 +455,6 @@ func (w *World) setRelationsBatch(batch *Batch, relations []relationID, fn func(
 	w.storage.slices.tables = tables[:0]
 
 	w.storage.registerTargets(relations)
-
-	w.unlock(lock)
 }
 
 // setRelationsTable batch-changes entity relations for a single table.
